@@ -20,8 +20,40 @@ See the included GPLv3 LICENSE file
 #include <unordered_map>
 #include <unordered_set>
 
+#ifdef NIFLY_VERIF
+#include <type_traits>
+#include <typeinfo>
+#endif
+
 namespace nifly {
 constexpr auto NIF_NPOS = static_cast<uint32_t>(-1);
+
+#ifdef NIFLY_VERIF
+// Verification hooks (off by default; see /verif/DESIGN.md). Add-only instrumentation:
+// a table of callbacks invoked just before a typed field, a block reference or a
+// string reference is transferred to/from a stream.
+class NiRef;
+class NiStringRef;
+namespace verif {
+enum Kind : int { K_BOOL = 0, K_INT = 1, K_ENUM = 2, K_FLOAT = 3, K_STRUCT = 4 };
+struct Hooks {
+	void* ctx = nullptr;
+	// mode: 0 = reading, 1 = writing. Called BEFORE the bytes are transferred.
+	void (*field)(void* ctx, int mode, int kind, size_t size, const char* type) = nullptr;
+	void (*blockref)(void* ctx, int mode, NiRef* ref, const char* prettyFunc) = nullptr;
+	void (*strref)(void* ctx, int mode, NiStringRef* ref) = nullptr;
+};
+inline Hooks* hooks = nullptr;
+template<typename T>
+constexpr int KindOf() {
+	if constexpr (std::is_same_v<T, bool>) return K_BOOL;
+	else if constexpr (std::is_enum_v<T>) return K_ENUM;
+	else if constexpr (std::is_integral_v<T>) return K_INT;
+	else if constexpr (std::is_floating_point_v<T>) return K_FLOAT;
+	else return K_STRUCT;
+}
+} // namespace verif
+#endif
 
 constexpr auto NiCharMin = std::numeric_limits<char>::min();
 constexpr auto NiCharMax = std::numeric_limits<char>::max();
@@ -229,6 +261,10 @@ public:
 	// Be careful with sizes of structs and classes
 	template<typename T>
 	NiIStream& operator>>(T& t) {
+#ifdef NIFLY_VERIF
+		if (verif::hooks && verif::hooks->field)
+			verif::hooks->field(verif::hooks->ctx, 0, verif::KindOf<T>(), sizeof(T), typeid(T).name());
+#endif
 		read((char*) &t, sizeof(T));
 		return *this;
 	}
@@ -289,6 +325,10 @@ public:
 
 	template<typename T>
 	void Sync(T& t) {
+#ifdef NIFLY_VERIF
+		if (verif::hooks && verif::hooks->field)
+			verif::hooks->field(verif::hooks->ctx, mode == Mode::Writing, verif::KindOf<T>(), sizeof(T), typeid(T).name());
+#endif
 		Sync(reinterpret_cast<char*>(&t), sizeof(T));
 	}
 
@@ -772,7 +812,18 @@ public:
 	NiBlockRef() {}
 	NiBlockRef(const uint32_t id) { NiRef::index = id; }
 
+#ifdef NIFLY_VERIF
+	void Sync(NiStreamReversible& stream) {
+		if (verif::hooks && verif::hooks->blockref)
+			verif::hooks->blockref(verif::hooks->ctx,
+								   stream.GetMode() == NiStreamReversible::Mode::Writing,
+								   this,
+								   __PRETTY_FUNCTION__);
+		stream.Sync(base::index);
+	}
+#else
 	void Sync(NiStreamReversible& stream) { stream.Sync(base::index); }
+#endif
 };
 
 template<typename T>
